@@ -17,11 +17,11 @@ Definition mop_apply (s : dstate) (o : mop) : dstate * dres :=
 Definition d_ok (r : dres) : bool := match r with DOk _ => true | DErr => false end.
 
 (* the table the property describes: the regions of the successful operations *)
-Definition abs_step (t : list region) (o : mop) (ok : bool) : list region :=
+Definition abs_step (log : option (N * N * N)) (t : list region) (o : mop) (ok : bool) : list region :=
   if ok then
     match o with
-    | MSet rl => map mk_region rl
-    | MAdd a => mk_region a :: t
+    | MSet rl => map (mk_region log) rl
+    | MAdd a => mk_region log a :: t
     | MRem a => filter (fun r => negb (rg_gpa r =? nth 0 a 0)) t
     end
   else t.
@@ -45,7 +45,7 @@ Qed.
 (* a successful update installs exactly the property's table, and notifies the backend once *)
 Lemma mop_step_table s o s' r :
   mop_apply s o = (s', r) ->
-  (forall x, In x (m_regs (d_mem s')) <-> In x (abs_step (m_regs (d_mem s)) o (d_ok r)))
+  (forall x, In x (m_regs (d_mem s')) <-> In x (abs_step (m_log (d_mem s)) (m_regs (d_mem s)) o (d_ok r)))
   /\ m_upd (d_mem s') = m_upd (d_mem s) + (if d_ok r then 1 else 0).
 Proof.
   destruct o as [rl|a|a]; cbn [mop_apply]; unfold h_set_mem_table, h_add_mem, h_rem_mem; intros H;
@@ -109,7 +109,7 @@ Definition MemInv (m : dmem) : Prop :=
   regs_sorted (m_regs m) = true
   /\ (forall p, In p (table_of_maps (m_maps m)) <-> In p (table_of_regs (m_regs m))).
 
-Lemma maps_regs_of_args rl : table_of_maps (map mk_mapping rl) = table_of_regs (map mk_region rl).
+Lemma maps_regs_of_args log rl : table_of_maps (map mk_mapping rl) = table_of_regs (map (mk_region log) rl).
 Proof. unfold table_of_maps, table_of_regs. rewrite !map_map. reflexivity. Qed.
 
 Lemma in_table_filter_maps g l p :
@@ -132,19 +132,19 @@ Proof.
   intros [Hs Ht]. unfold MemInv.
   destruct o as [rl|a|a]; cbn [mop_apply]; unfold h_set_mem_table, h_add_mem, h_rem_mem.
   - destruct (negb (forallb _ rl)); [split; assumption|].
-    destruct (negb (Nat.ltb 0 (List.length (map mk_region rl))) || negb (regs_sorted (map mk_region rl))) eqn:E; [split; assumption|].
+    destruct (negb (Nat.ltb 0 (List.length (map (mk_region (m_log (d_mem s))) rl))) || negb (regs_sorted (map (mk_region (m_log (d_mem s))) rl))) eqn:E; [split; assumption|].
     cbn [fst d_mem set_mem with_table m_regs m_maps]. split.
     + apply Bool.orb_false_iff in E. destruct E as [_ E]. apply Bool.negb_false_iff in E. exact E.
-    + intros p. rewrite maps_regs_of_args. tauto.
-  - destruct (negb (mmap_ok _ _ _ _)); [split; assumption|].
-    destruct (negb (regs_sorted (insert_reg (mk_region a) (m_regs (d_mem s))))) eqn:E; [split; assumption|].
+    + intros p. rewrite (maps_regs_of_args (m_log (d_mem s))). tauto.
+  - destruct (negb (new_region_ok _ _)); [split; assumption|].
+    destruct (negb (regs_sorted (insert_reg (mk_region (m_log (d_mem s)) a) (m_regs (d_mem s))))) eqn:E; [split; assumption|].
     cbn [fst d_mem set_mem with_table m_regs m_maps]. split.
     + apply Bool.negb_false_iff in E. exact E.
     + intros p. unfold table_of_maps, table_of_regs in *. rewrite map_app, in_app_iff. cbn [map In].
       rewrite (Ht p). rewrite !in_map_iff. split.
       * intros [[r [<- Hin]]|[<-|[]]].
         -- exists r. split; [reflexivity|]. apply in_insert_reg. auto.
-        -- exists (mk_region a). split; [reflexivity|]. apply in_insert_reg. auto.
+        -- exists (mk_region (m_log (d_mem s)) a). split; [reflexivity|]. apply in_insert_reg. auto.
       * intros [r [<- Hin]]. apply in_insert_reg in Hin. destruct Hin as [->|Hin]; [right; left; reflexivity|left; eauto].
   - destruct (existsb _ (m_regs (d_mem s))); [|split; assumption].
     cbn [fst d_mem set_mem with_table m_regs m_maps]. split.
@@ -198,11 +198,12 @@ Lemma fbyte_put_head m sizes f o b acc :
 Proof. unfold fbyte_of. cbn [m_fbytes with_files find fst snd]. rewrite !N.eqb_refl. reflexivity. Qed.
 
 Lemma backend_write_visible m a b m' r :
-  region_of (m_regs m) a = Some r ->
+  region_of (m_regs m) a = Some r -> rg_log r = None ->
   mem_write m a [b] = (m', true) ->
   fbyte_of m' (rg_file r) (rg_off r + (a - rg_gpa r)) = b /\ mem_read m' a 1 = Some [b].
 Proof.
-  intros Hr. unfold mem_write. cbn [List.length mem_locs]. rewrite Hr. cbn [put_locs List.length Nat.eqb].
+  intros Hr Hl. unfold mem_write. cbn [List.length mem_locs]. rewrite Hr. cbn [put_locs List.length Nat.eqb apply_marks].
+  rewrite Hr. unfold mark_loc. rewrite Hl.
   intros H. inversion H; subst. split; [apply fbyte_put_head|].
   unfold mem_read. cbn [mem_locs with_files m_regs]. rewrite Hr. cbn [List.length Nat.eqb map fst snd].
   rewrite fbyte_put_head. reflexivity.
